@@ -263,6 +263,7 @@ def inherit(ctx, vb):
             it = strip(it[2][0])
         zipped = is_call(it, 'Iterator::zip') and len(it[2]) == 2
         sides = False
+        unad_iter = lambda z: all(re.search(r'(slice::<impl \[T\]>::iter|into_iter|deref|Vec::<T, A>::iter|as_slice)$', c_[1]) for c_ in calls_in(z) if not c_[1].endswith('region_name_and_vftable') and c_[3] != TRY_BRANCH and 'branch' not in c_[1])
         if zipped:
             a, b = it[2]
             unad = lambda z: all(re.search(r'(slice::<impl \[T\]>::iter|into_iter|deref|Vec::<T, A>::iter|as_slice)$', c_[1]) for c_ in calls_in(z) if not c_[1].endswith('region_name_and_vftable') and c_[3] != TRY_BRANCH and 'branch' not in c_[1])
@@ -270,6 +271,28 @@ def inherit(ctx, vb):
             sides = base_a != base_b
         pf = predicate_fn(P, X[2][1])
         okty = False
+        indexed = False
+        if not zipped and pf is not None and is_call(strip(X[2][0]) if strip(X[2][0])[0] != 'var' else strip(expand(g.fn, X[2][0])), 'Iterator::enumerate'):
+            # `base.iter().enumerate().find(|(i, b)| derived[*i] != **b)`: the other list indexed by the position (the length test
+            # that precedes it keeps the index in range, see G11|derived-not-shorter)
+            ex0 = [strip(x_['expr']) for x_ in pf.exits()]
+            caps = X[2][1][2] if X[2][1][0] == 'closure' and len(X[2][1]) > 2 else []
+            if len(ex0) == 1 and not pf.switches():
+                c0 = ex0[0]
+                ng0 = False
+                while c0[0] == 'un' and c0[1] == 'Not':
+                    c0, ng0 = strip(c0[2]), not ng0
+                if c0[0] == 'call' and re.search(r'::(ne|eq)$', c0[1]) and len(c0[2]) == 2:
+                    l_, r_ = strip(c0[2][0]), strip(c0[2][1])
+                    if r_[0] == 'index':
+                        l_, r_ = r_, l_
+                    if l_[0] == 'index' and strip(l_[1])[0] == 'upvar' and strip(l_[1])[1] < len(caps) and strip(l_[2]) == ('field', ('arg', 2, '_2'), '0') and \
+                            r_[:2] == ('field', ('arg', 2, '_2')) and r_[2] == '1':
+                        other = strip(caps[strip(l_[1])[1]])
+                        other_is_base = bool(find_calls(expand(g.fn, other), 'region_name_and_vftable'))
+                        it_is_base = bool(find_calls(it, 'region_name_and_vftable'))
+                        indexed = other_is_base != it_is_base and unad_iter(it)
+                        zipped, sides = indexed, indexed
         if pf is not None:
             ex_ = [strip(x_['expr']) for x_ in pf.exits()]
             neg_ = False
